@@ -11,9 +11,9 @@ PROPS = {
     'C04': {'streams': [{'stream': 'g4', 'ops': 'x', 'proj': {'x': 'verdict'}}], 'oracle': 'C04'},
     'C05': {'streams': [{'stream': 'history', 'ops': 'is,x'}], 'oracle': 'history', 'race': True,
             'rule': 'history mode: distinct inputs asked once in a fresh process (compared with the model), then in random histories and from 32 goroutines; non-trivial = reported by at least one detector'},
-    'C06': {'streams': [{'stream': 'sq', 'ops': 'tok,fp,is'}, {'stream': 'sc', 'ops': 'strcore'}], 'conformance': True,
+    'C06': {'streams': [{'stream': 'sq', 'ops': 'tok,fp,is'}, {'stream': 'sc', 'ops': 'strcore'}], 'conformance': True, 'fuzz': ['FuzzSQL'],
             'rule': 'every generated SQL input in the six modes: raw token stream, folded tokens + fingerprint + verdict + statistics, and IsSQLi; non-trivial = at least two raw tokens as-is'},
-    'C07': {'streams': [{'stream': 'hx', 'ops': 'h5,xc,x'}, {'stream': 'xu', 'ops': 'dec,url,tag,attr,esw'}], 'conformance': True,
+    'C07': {'streams': [{'stream': 'hx', 'ops': 'h5,xc,x'}, {'stream': 'xu', 'ops': 'dec,url,tag,attr,esw'}], 'conformance': True, 'fuzz': ['FuzzHTML', 'FuzzXSSUnit'],
             'rule': 'every generated HTML input in the five contexts: token stream and verdict, IsXSS; decoder and the three classifiers on unit inputs; non-trivial = at least two tokens in the data state'},
     'C08': {'streams': [{'stream': 'sq', 'ops': 'fp,is', 'proj': {'fp': 'fpverdict'}}], 'oracle': 'C08'},
     'C09': {'streams': [], 'oracle': 'timing'},
